@@ -44,7 +44,8 @@ def cb_run(ctx, spec, K, flavor='rel', features=(), **kw):
     """context-bounded interleaving with concrete memory (cb.py)"""
     import cb
     s = ctx.session(flavor, features)
-    r = cb.run_cb(s, spec, K=K, **kw)
+    r = cb.run_cb(s, spec, K=K, flavor=flavor, features=features, **kw)
+    ctx.traces_validated += r.get('traces_validated', 0)
     ctx.bounds.setdefault('context_bounded_runs', []).append(
         '%s: every schedule of its %d threads with at most %d preemptions at gated atomic steps (free switches when a thread finishes)' % (
             spec['name'], len(spec['threads']), K))
@@ -190,8 +191,8 @@ def c04(ctx):
     ctx.bounds['oracle'] = 'two concurrent swaps / cas+swap+store: every value put in comes out exactly once (returned handle or final content), returned handles own a full reference'
     ctx.outside += CONC_OUTSIDE
     conc_set(ctx, ['swap2'])
-    cb_run(ctx, SPECS['swap2'], 2)
-    cb_run(ctx, SPECS['cas_aba'], 2 if ctx.tier == 'quick' else 3)
+    cb_run(ctx, SPECS['swap2'], 2 if ctx.tier == 'quick' else 3)
+    cb_run(ctx, SPECS['cas_aba'], 3)
     if ctx.tier != 'quick':
         cb_run(ctx, SPECS['cas3'], 2)
 
